@@ -17,6 +17,12 @@ design half : spec/Supervisor.tla resolves every supervisor mutation with the
               entry is added only when the fork returned; lost errors: ErrWorker is not
               Multi, an error queued behind another one never reaches ErrWorkerState).
               Anything else is exit 2.  thorough adds random behaviours for settings 0..6.
+              The two events of ONE fork reach the queue in either order (sub-models early-*):
+              ConnectEarly = the worker announces itself (WorkerForked) while its TestFork call
+              has not returned / while SetWorker is still queued, DropBoot = the boot entry is
+              removed before the worker connects.  As the code is WorkerForkedState refuses a
+              worker without a boot entry (ErrWorkerMissing) and the map grows in
+              SetWorkerState only (MapGrowsOnlyBySet, every variant).
 binding half: harness/supdrv runs the REAL Supervisor with the TestFork / TestKill seams
               as gates, real in-memory node.Workers over loopback, and a tracer on the
               supervisor machine that samples the verif accessor node.VerifPoolOf at
@@ -33,8 +39,15 @@ binding half: harness/supdrv runs the REAL Supervisor with the TestFork / TestKi
               2. scenario families (canonical reproducers, start-up for every setting
                  0..3 + some up to 6, slow forks across NormalizingPool rounds, error
                  bursts while the supervisor is busy, ready-gate flips, disconnects +
-                 heartbeats, kills and confirmations, worker work-status) and random
-                 gated / free-running schedules.
+                 heartbeats, kills and confirmations, worker work-status, workers that
+                 connect BEFORE their parked TestFork call is released: per pool setting
+                 which forks are early x release order x across a NormalizingPool round,
+                 boot entries dropped before the worker connects) and random gated /
+                 free-running schedules (econnany; early_pct: an ungated TestFork that
+                 returns only after the supervisor has processed the worker's WorkerForked).
+              A WithinMax violation is attributed to the known forks-in-flight weakness only
+              when every entry was put into the map by SetWorkerState and no fork is tracked
+              under two keys; otherwise the cause names the handler that grew the map.
 A VIOLATION is reported only when a formula is false on values the real supervisor
 produced.  A driver process killed by a panic on a library goroutine is re-run; a step of a
 script whose precondition never came true is counted (`cases_with_unrealised_steps`), never
@@ -68,9 +81,14 @@ PROP = "C15"
 BOTH = '{"code", "repaired"}'
 CODE_ONLY = '{"code"}'
 # formulas every variant has to satisfy / formulas the code variant is predicted to break
-HOLD = ["NoForkAtMax", "PoolReadyHonest", "PoolReadyKept", "KillRequested", "GroupsExclusive"]
+HOLD = ["NoForkAtMax", "PoolReadyHonest", "PoolReadyKept", "KillRequested", "GroupsExclusive",
+        "MapGrowsOnlyBySet"]
 PREDICTED = ["WithinMax", "KillRequestedDelivered"]
-JAVA = "-Xmx3g"
+# -Xss: resolving one mutation on a large active set (Exception + ErrPool + ErrWorker + the
+# pool states) recurses deep in Transition!RunTx; with the default 1 MB thread stack the JVM
+# overflows on such a line while its frames are still interpreted ones
+JAVA = "-Xmx3g -Xss16m"
+JAVA_TRACE = "-Xmx2g -Xss16m"
 
 
 class Raw:
@@ -163,7 +181,7 @@ def mc_models(tier):
 
     q = tier == "quick"
     base = dict(MaxFail=0, MaxExpire=0, MaxConn=0, MaxErr=0, MaxHb=0, MaxCheck=0, MaxFlip=0,
-                Rounds=2, QueueLimit=2, McErrKill=0)
+                MaxEarly=0, MaxDrop=0, Rounds=2, QueueLimit=2, McErrKill=0)
     ms = [
         # A: the bounds.  forks succeed / fail / lose their bootstrap / connect, two
         #    NormalizingPool rounds (+ CheckPool in thorough)
@@ -186,6 +204,17 @@ def mc_models(tier):
         dict(base, name="errors-kill1", MaxForks=1, MaxConn=1, MaxErr=3, MaxHb=1, MaxFlip=1,
              QueueLimit=2 if q else 3, McErrKill=1, pools=[110]),
     ]
+    # D: the two events of one fork in either order: the worker announces itself
+    #    (WorkerForked) before the fork seam returned / while SetWorker is still queued
+    ms += [
+        dict(base, name="early-max1", MaxForks=2, MaxFail=0 if q else 1, MaxExpire=0 if q else 1,
+             MaxConn=2, MaxEarly=2, MaxDrop=1, MaxFlip=0 if q else 1, pools=pools(lambda k: k[1] == 1)),
+        dict(base, name="early-max2", MaxForks=3, MaxFail=0 if q else 1, MaxConn=1 if q else 2,
+             MaxEarly=1 if q else 2, MaxDrop=0 if q else 1, pools=pools(lambda k: k[1] == 2)),
+    ]
+    if not q:
+        ms.append(dict(base, name="early-max3", MaxForks=3, MaxConn=2, MaxEarly=2,
+                       pools=pools(lambda k: k[1] == 3)))
     if not q:
         ms.append(dict(base, name="errors-2workers", MaxForks=2, MaxConn=2, MaxErr=2, MaxHb=1,
                        MaxFlip=1, QueueLimit=2, McErrKill=0, pools=[220, 120]))
@@ -193,7 +222,7 @@ def mc_models(tier):
 
 
 def consts_of(m, variants, emit=False):
-    c = {k: v for k, v in m.items() if k not in ("name", "pools")}
+    c = {k: v for k, v in m.items() if k not in ("name", "pools", "only_early")}
     c["BootFault"] = True
     c["Pools"] = Raw("{" + ", ".join(str(p) for p in m["pools"]) + "}")
     c["Variants"] = Raw(variants)
@@ -222,7 +251,7 @@ def mc_verify(tier, rep, schema_file):
 
     states = trans = 0
     runs, predicted = [], Counter()
-    with cf.ThreadPoolExecutor(max_workers=8 if tier == "quick" else 4) as ex:
+    with cf.ThreadPoolExecutor(max_workers=10 if tier == "quick" else 4) as ex:
         for m, r, pred in ex.map(one, models):
             if r["timed_out"] or r["errors"] or (not r["completed"] and not r["violated"]):
                 raise Inconclusive("TLC failed on %s: %s\n%s" % (m["name"], r["errors"][:3],
@@ -243,7 +272,7 @@ def mc_verify(tier, rep, schema_file):
         # pool settings up to 6 (the property's range): random behaviours of a larger model
         cl6 = pool_classes(0, 6)
         sim = dict(name="sim-0..6", MaxForks=7, MaxFail=1, MaxExpire=1, MaxConn=4, MaxErr=3, MaxHb=2,
-                   MaxCheck=1, MaxFlip=4, Rounds=2, QueueLimit=3, McErrKill=1,
+                   MaxCheck=1, MaxFlip=4, MaxEarly=2, MaxDrop=1, Rounds=2, QueueLimit=3, McErrKill=1,
                    pools=sorted(min(v) for v in cl6.values()))
         r = tlcrun.run_tlc("MCSupervisor", dict(spec="MCSpec", consts=consts_of(sim, BOTH),
                                                 view="MCView", invariants=HOLD + ["RepairedHolds"]),
@@ -278,7 +307,7 @@ RE_SCHED = re.compile(r'^<<"SCHED", "(.*)">>$', re.M)
 
 def emit_models(tier):
     base = dict(MaxFail=0, MaxExpire=0, MaxConn=0, MaxErr=0, MaxHb=0, MaxCheck=0, MaxFlip=0,
-                Rounds=2, QueueLimit=2, McErrKill=0)
+                MaxEarly=0, MaxDrop=0, Rounds=2, QueueLimit=2, McErrKill=0)
     ms = [
         dict(base, name="emit-overfork1", MaxForks=2, MaxFail=1, MaxExpire=1, MaxConn=1, pools=[110]),
         dict(base, name="emit-overfork2", MaxForks=3, pools=[220, 221]),
@@ -286,6 +315,9 @@ def emit_models(tier):
              pools=[110]),
         dict(base, name="emit-errors", MaxForks=1, MaxConn=1, MaxErr=3, MaxFlip=1, McErrKill=1,
              pools=[110]),
+        # a worker ahead of its own fork call (WorkerForked before SetWorker), also next
+        # to forks parked across a NormalizingPool round
+        dict(base, name="emit-early", MaxForks=2, MaxConn=2, MaxEarly=2, pools=[110, 220], only_early=True),
     ]
     return ms
 
@@ -301,8 +333,24 @@ def emit_schedules(m, schema_file):
     for t in set(RE_SCHED.findall(r["out"])):
         t = t.replace('\\\\', '\x00').replace('\\"', '"').replace('\x00', '\\')
         out.append(json.loads(t))
+    if m.get("only_early"):
+        out = [x for x in out if early_connects(x["hist"])]
     out.sort(key=lambda x: (len(x["hist"]), json.dumps(x, sort_keys=True)))
     return out, r["distinct"], r["states"]
+
+
+def early_connects(hist):
+    """fork calls whose worker connects before the call is released, or after its boot
+    entry was dropped (TLC history)"""
+    rel, early = set(), []
+    for h in hist:
+        if h["k"] == "fork":
+            rel.add(h["i"])
+        elif h["k"] == "dropboot":
+            rel.discard(h["i"])
+        elif h["k"] == "connect" and h["i"] not in rel:
+            early.append(h["i"])
+    return early
 
 
 # handler_ms: the supervisor machine's handler timeout.  The library default (100ms) makes
@@ -346,7 +394,7 @@ def sched_to_case(s, label):
             script.append(op("settle", ms=120))
             paused = False
 
-    QUEUED = ("fork", "connect", "err", "killed", "hb", "checkpool")
+    QUEUED = ("fork", "connect", "err", "killed", "hb", "checkpool", "dropboot")
     hist = s["hist"]
 
     def next_busy(j):
@@ -359,8 +407,19 @@ def sched_to_case(s, label):
                 return False
         return False
 
+    released = set()
     for j, h in enumerate(hist):
         k, i = h["k"], h["i"]
+        if k == "fork":
+            released.add(i)
+        if k == "connect" and i not in released:
+            # the worker is ahead of its own fork call: WorkerConnected has to be PROCESSED
+            # for WorkerForked to reach the queue (the rpc client to the worker is set up
+            # by a goroutine of WorkerConnectedState), so the supervisor is not parked here
+            leave()
+            script.append(op("connect", i))
+            script.append(op("settle", ms=120))
+            continue
         if k == "arrive":
             leave()
             script.append(op("waitfork", i, ms=6000))
@@ -384,12 +443,12 @@ def sched_to_case(s, label):
             script.append(op("fork", i, ok=h["ok"]))
         elif k == "err":
             script.append(op("err", i, n=1))
-        elif k in ("connect", "ready", "unready", "disc", "killed"):
+        elif k in ("connect", "ready", "unready", "disc", "killed", "dropboot"):
             script.append(op(k, i))
         elif k in ("hb", "checkpool"):
             script.append(op(k))
         if not paused and k in ("connect", "ready", "unready", "disc", "err", "killed", "hb",
-                                "checkpool"):
+                                "checkpool", "dropboot"):
             script.append(op("settle", ms=120))
     leave()
     script.append(SETTLE)
@@ -471,6 +530,72 @@ def family_cases(rng, tier):
             s.append(op("workany", s=rng.choice(["WorkRequested", "Working", "WorkReady", "Idle"])))
         s.append(SETTLE)
         out.append(case("work-%d" % n, n, n, 0, s))
+    # 7. the two events of one fork in either order: a worker that announces itself
+    #    (WorkerConnected -> WorkerForked) while its TestFork call has not returned yet, so
+    #    that SetWorker for it arrives late.  Per pool setting with at least one fork wanted:
+    #    which of the forks of the first NormalizingPool round are "early" (every non-empty
+    #    subset in thorough, a drawn one in quick), in which order the calls are released
+    #    afterwards, and whether a further round of forks is allowed to arrive first
+    #    (the parked calls are held across a NormalizingPool round, like in family 2).
+    out.append(case("canon-forked-before-set", 1, 1, 0,
+                    [op("waitfork", 1, ms=5000), op("connect", 1), op("settle", ms=120),
+                     op("fork", 1, ok=True), SETTLE, op("hb"), op("checkpool"), SETTLE]))
+    # ... and the other way to a WorkerForked that finds no boot entry: the entry of a warm
+    # worker is removed while it boots (the others made the pool ready, so the normalisation
+    # is over), CheckPool refills the pool with a further fork, then the worker connects.
+    # The bootstrap of the victim lives for ConnTimeout only, hence the longer one.
+    drops = [(1, 2, 1), (2, 3, 1), (1, 3, 2), (1, 2, 3), (2, 3, 2), (3, 4, 1)]
+    for (mn, mx, wm) in (drops if tier != "quick" else [drops[0]] + rng.sample(drops[1:], 2)):
+        want = min(min(mn, mx) + wm, mx)
+        for how in (("set", "killed") if tier != "quick" else (rng.choice(["set", "killed"]),)):
+            v = want
+            s = [op("waitfork", want, ms=5000)] + [op("fork", i, ok=True) for i in range(1, want + 1)]
+            s += [op("connect", i) for i in range(1, want)]
+            s += [op("waitstate", s="PoolNormalized", ok=True, ms=3000), op("dropboot", v, s=how),
+                  op("checkpool"), op("waitfork", want + 1, ms=1500), op("fork", want + 1, ok=True),
+                  op("connect", v), op("settle", ms=120), op("connect", want + 1), SETTLE, op("hb"),
+                  op("settle", ms=400)]
+            out.append(case("dropboot-%d%d%d-%s" % (mn, mx, wm, how), mn, mx, wm, s, conn_ms=2500))
+    wanted = [(mn, mx, wm) for (mn, mx, wm) in rng_pools if min(min(mn, mx) + wm, mx) >= 1]
+    if tier == "quick":
+        # one setting per (forks wanted, Max) class, the rest drawn
+        seen, pick = set(), []
+        for p in rng.sample(wanted, len(wanted)):
+            k = (min(min(p[0], p[1]) + p[2], p[1]), p[1])
+            if k not in seen:
+                seen.add(k)
+                pick.append(p)
+        esel = pick + rng.sample([p for p in wanted if p not in pick], 6) + [(4, 6, 1)]
+    else:
+        esel = wanted + big
+    for (mn, mx, wm) in esel:
+        want = min(min(mn, mx) + wm, mx)
+        subsets = [[i for i in range(1, want + 1) if (m >> (i - 1)) & 1] for m in range(1, 1 << want)]
+        if tier == "quick":
+            subsets = [rng.choice(subsets)] + ([list(range(1, want + 1))] if rng.random() < 0.5 else [])
+        elif len(subsets) > 7:
+            subsets = rng.sample(subsets, 6) + [list(range(1, want + 1))]
+        for early in subsets:
+            across = rng.random() < 0.35           # let the next round's forks arrive first
+            s = [op("waitfork", want, ms=5000)]
+            if across:
+                s.append(op("waitfork", want + 1, ms=2500))
+            for i in early:
+                s += [op("connect", i), op("settle", ms=100)]
+            order = list(range(1, want + 1))
+            rng.shuffle(order)
+            fail = rng.choice(early) if rng.random() < 0.15 else 0
+            for i in order:
+                s.append(op("fork", i, ok=i != fail))
+                if i not in early and rng.random() < 0.7:
+                    s.append(op("connect", i))
+            s += [op("relany", ok=True), op("relany", ok=True)] if across else []
+            s += [SETTLE, op("connany"), op("connany"), SETTLE, op("hb"), op("checkpool"),
+                  op("settle", ms=400)]
+            lab = "early-%d%d%d-%s%s" % (mn, mx, wm, "".join(str(i) for i in early), "x" if across else "")
+            if any(c["label"] == lab for c in out):
+                continue
+            out.append(case(lab, mn, mx, wm, s, readygate=rng.random() < 0.3))
     return out
 
 
@@ -488,8 +613,10 @@ def rand_cases(rng, n, gated):
                 x = rng.random()
                 if x < 0.22:
                     s.append(op("relany", ok=rng.random() < 0.85))
-                elif x < 0.40:
+                elif x < 0.36:
                     s.append(op("connany"))
+                elif x < 0.40:
+                    s.append(op("econnany"))          # a worker ahead of its parked fork call
                 elif x < 0.50:
                     s.append(op("errany", n=rng.choice([1, 1, 2])))
                 elif x < 0.56:
@@ -530,7 +657,8 @@ def rand_cases(rng, n, gated):
             s.append(SETTLE)
             out.append(case("free-%d" % k, mn, mx, wm, s, errkill=ek, gated=False, autoconnect=True,
                             hb_ms=rng.choice([150, 300, 700]), fork_delay_ms=rng.choice([0, 30, 900]),
-                            fork_fail_pct=rng.choice([0, 0, 20]), seed=rng.randrange(1 << 30)))
+                            fork_fail_pct=rng.choice([0, 0, 20]), early_pct=rng.choice([0, 0, 30, 100]),
+                            seed=rng.randrange(1 << 30)))
     return out
 
 
@@ -596,7 +724,7 @@ def run_driver(binary, cases, prefix, shards=16, workers=32, procs=4):
 
 
 TRACE_CONSTS = dict(BootFault=True, MaxForks=0, MaxFail=0, MaxExpire=0, MaxConn=0, Rounds=5, MaxErr=0, MaxHb=0,
-                    MaxCheck=0, MaxFlip=0, QueueLimit=0, Emit=False, Memo=False)
+                    MaxCheck=0, MaxFlip=0, MaxEarly=0, MaxDrop=0, QueueLimit=0, Emit=False, Memo=False)
 
 
 def validate(files, schema_file):
@@ -607,14 +735,14 @@ def validate(files, schema_file):
         r = tlcrun.run_tlc("TraceSupervisor", dict(spec="TraceSpec", consts=c, view="TraceView"),
                            workers=1, timeout=2400,
                            files={tf: "trace.ndjson", schema_file: "SupSchema.tla"},
-                           java_opts="-Xmx2g")
+                           java_opts=JAVA_TRACE)
         res = tlcrun.parse_result(r["out"])
         if res is None and not r["timed_out"]:
             # a JVM that died (rc 255 / killed under memory pressure) is retried once
             r = tlcrun.run_tlc("TraceSupervisor", dict(spec="TraceSpec", consts=c, view="TraceView"),
                                workers=1, timeout=2400,
                                files={tf: "trace.ndjson", schema_file: "SupSchema.tla"},
-                               java_opts="-Xmx2g")
+                               java_opts=JAVA_TRACE)
             res = tlcrun.parse_result(r["out"])
         return dict(file=tf, result=res, out=r["out"], rc=r["rc"])
     with cf.ThreadPoolExecutor(max_workers=16) as ex:
@@ -710,6 +838,19 @@ def cause_of(name, line, lines):
     if name == "WithinMax":
         # every fork was decided with len(workers) < Max, and still the map outgrew Max:
         # the forks in flight were not counted.  A fork decided at Max is another defect.
+        # The forks-in-flight weakness explains a map that outgrew Max only when every entry
+        # belongs to a fork of its own and was put there by SetWorkerState.
+        for x in lines:
+            if x["ev"] != "tx":
+                continue
+            if x["t"] > x["t0"] and ["state", "SetWorker"] not in x["hs"]:
+                grown = [h[1] for h in x["hs"] if h[0] == "state"]
+                return "entry-added-by-" + (grown[-1] if grown else "unknown")
+            ids = [w["id"] for w in x["ws"]]
+            if len(set(ids)) != len(ids):
+                return "fork-tracked-twice"
+            if x is line:
+                break
         at_max = any(x["ev"] == "tx" and x["t0"] >= x["max"] and
                      (["state", "ForkingWorker"] in x["hs"] or ["state", "ForkWorker"] in x["hs"])
                      for x in lines)
@@ -722,6 +863,41 @@ def cause_of(name, line, lines):
     if name.startswith("GroupsExclusive"):
         return "group-" + name.split(".")[-1]
     return "gate"
+
+
+def forked_before_set(txs, need_set):
+    """WorkerForkedState ran for a worker no SetWorker had been processed for (and, with
+    need_set, SetWorkerState ran for it afterwards)"""
+    setw, forked = set(), set()
+    for x in txs:
+        if x["op"] != "add" or not x["acc"]:
+            continue
+        if x["called"] == ["SetWorker"] and ["state", "SetWorker"] in x["hs"]:
+            if x["w"] in forked:
+                return True
+            setw.add(x["w"])
+        elif x["called"] == ["WorkerForked"] and ["state", "WorkerForked"] in x["hs"] and x["w"] not in setw:
+            forked.add(x["w"])
+            if not need_set:
+                return True
+    return False
+
+
+def forked_after_drop(txs):
+    """WorkerForkedState ran for a worker whose boot entry had been removed again"""
+    state = {}
+    for x in txs:
+        if x["op"] != "add" or not x["acc"]:
+            continue
+        if x["called"] == ["SetWorker"] and ["state", "SetWorker"] in x["hs"]:
+            state[x["w"]] = "set" if x["info"] else "dropped"
+        elif x["called"] == ["WorkerKilled"] and state.get(x["w"]) == "set":
+            state[x["w"]] = "dropped"
+        elif x["called"] == ["WorkerForked"] and ["state", "WorkerForked"] in x["hs"]:
+            if state.get(x["w"]) == "dropped":
+                return True
+            state[x["w"]] = "forked"
+    return False
 
 
 def finals_of(files, label):
@@ -865,6 +1041,12 @@ def check(tier):
             rep.coverage.setdefault("states", 1)
             rep.coverage.setdefault("transitions", 1)
 
+        if not stat["forkedfirst"] or not stat["lateset"]:
+            # the driver is supposed to force this order through the TestFork gate
+            raise Inconclusive("no recorded execution has WorkerForked processed before SetWorker of "
+                               "the same fork (%d) followed by the late SetWorker (%d)" % (
+                                   stat["forkedfirst"], stat["lateset"]))
+
         # were TLC's witnesses realised on the real supervisor?
         realised = Counter()
         wanted = Counter()
@@ -886,6 +1068,9 @@ def check(tier):
                     kept=any(x["called"] == ["PoolReady"] and x["op"] == "remove" and not x["acc"]
                              for x in txs),
                     kill=any(x["ev"] == "kill" for x in lines),
+                    forkedfirst=forked_before_set(txs, False),
+                    lateset=forked_before_set(txs, True),
+                    forkeddropped=forked_after_drop(txs),
                     errlost=any("ErrWorker" in x["called"] and x["op"] == "add" and x["acc"] and x["lk"]
                                 and ["state", "ErrWorker"] not in x["hs"] for x in txs))[t]
                 realised[t] += 1 if hit else 0
@@ -916,6 +1101,9 @@ def check(tier):
             forks=stat["forks"], fork_gate_refusals=stat["forkrejects"], kills=stat["kills"],
             worker_errors_delivered=stat["errs"], worker_errors_not_counted=stat["errlost"],
             samples_over_max=stat["overmax"],
+            workerforked_before_setworker=stat["forkedfirst"], setworker_after_workerforked=stat["lateset"],
+            workerforked_after_boot_entry_dropped=stat["forkeddropped"],
+            map_grew_outside_setworker=stat["grewoutside"],
             schedule_generation=gen, tlc_schedules_replayed=len(tcases),
             tlc_witnesses_wanted=dict(wanted), tlc_witnesses_realised=dict(realised),
             family_cases=len(fcases), random_cases=len(rcases), cases_with_unrealised_steps=miss,
@@ -925,7 +1113,8 @@ def check(tier):
                       "KillRequestedDelivered", "GroupsExclusive.PoolStatus",
                       "GroupsExclusive.PoolNormalized", "GroupsExclusive.WorkStatus"],
             rule="cases = (Min, Max, Warm, WorkerErrKill, schedule of fork returns ok/fail, worker "
-                 "connects, ready flips, disconnects, worker errors (single / bursts while the "
+                 "connects (after the fork call returned, or before: WorkerForked ahead of SetWorker), "
+                 "ready flips, disconnects, worker errors (single / bursts while the "
                  "supervisor is busy), kill confirmations, heartbeats, CheckPool) on a real Supervisor "
                  "with real in-memory workers: TLC's witness schedules + scenario families over "
                  "Min/Max/Warm 0..3 (some up to 6) + random gated and free-running schedules; one "
@@ -939,7 +1128,8 @@ def check(tier):
             "TLC explores the stated sub-models (fork attempts, errors, flips, rounds bounded); "
             "pool settings beyond 0..3 are covered by recorded executions only",
             "workers are in-memory node.Worker instances with the shipped WorkerSchema over loopback "
-            "TCP; the TestFork seam returns before the worker process exists (like exec.Cmd.Start)",
+            "TCP; the TestFork seam returns before the worker process exists (like exec.Cmd.Start) or "
+            "after the worker has announced itself (a seam that is slow to return)",
             "readiness is the supervisor's own view (readyWorkers() on its replicas), error TTLs "
             "(10 min / 1 min) do not expire within a case",
             "supervisor timings are shortened (ConnTimeout 600ms, PoolPause 150ms, "
